@@ -471,3 +471,147 @@ Theorem scalar_without_type_refused e cfg src kv :
   get_section cfg = Ok (src, kv) -> section_scalars kv = ScMissingType ->
   get_client_settings e cfg = Err (mkerr MissingConfiguration msg_no_type).
 Proof. intros H1 H2. unfold get_client_settings, client_of_section. rewrite H1, H2. reflexivity. Qed.
+
+(* ---------- the reported error belongs to a constraint that is actually violated ---------- *)
+Lemma client_check_rows_checks e r : map snd (client_check_rows e r) = client_checks e r.
+Proof.
+  unfold client_check_rows, client_checks, client_asserts, base_check_rows.
+  destruct (base_client_of e r) as [bp bn]. rewrite !map_app, map_map. simpl. reflexivity.
+Qed.
+Lemma schema_check_rows_checks e r : map snd (schema_check_rows e r) = schema_checks e r.
+Proof. unfold schema_check_rows, schema_checks, base_check_rows. rewrite map_app. reflexivity. Qed.
+
+Ltac pick := repeat (first [left; reflexivity | right]).
+
+Lemma base_rows_violated e b id x : In (id, Some x) (base_check_rows e b) -> In (id, false) (base_constraints e b).
+Proof.
+  unfold base_check_rows, base_checks, base_constraints. simpl.
+  intros [H|[H|[H|[]]]]; inversion H; subst; clear H.
+  - destruct (String.eqb (b_schema_path b) "" && String.eqb (b_url b) "") eqn:E; [|discriminate].
+    simpl. pick.
+  - destruct (String.eqb (b_schema_path b) "") eqn:E; [discriminate|].
+    unfold assert_path_exists in H2. destruct (p_exists e (b_schema_path b)) eqn:P; [discriminate|].
+    simpl. pick.
+  - destruct (headers_resolvable e (b_headers b)) eqn:R.
+    + apply headers_err_none_iff in R. congruence.
+    + pick.
+Qed.
+
+Lemma assert_identifier_some n x : assert_identifier n = Some x -> usable_name n = false.
+Proof.
+  intro H. destruct (usable_name n) eqn:U; auto. apply assert_identifier_none in U. congruence.
+Qed.
+
+Theorem client_rows_violated e r id x :
+  In (id, Some x) (client_check_rows e r) -> In (id, false) (client_constraints e r).
+Proof.
+  unfold client_check_rows, client_constraints. destruct (base_client_of e r) as [bp bn].
+  intro H. apply in_app_or in H as [H|H].
+  { simpl in H. destruct H as [H|[]]. inversion H; subst; clear H.
+    destruct (String.eqb (r_queries_path r) "" && negb (b_custom_ops (r_base r))); [|discriminate].
+    simpl. left. reflexivity. }
+  apply in_or_app. right.
+  apply in_app_or in H as [H|H].
+  { apply in_or_app. left. eapply base_rows_violated; eauto. }
+  apply in_or_app. right.
+  apply in_app_or in H as [H|H].
+  - simpl in H.
+    repeat (destruct H as [H|H]; [inversion H; subst; clear H|]); try contradiction.
+    + destruct (valid_comment (r_comments r)); [discriminate|]. pick.
+    + unfold assert_path_exists in *. destruct (p_exists e (r_queries_path r)); [discriminate|]. pick.
+    + rewrite (assert_identifier_some _ _ H2). pick.
+    + unfold assert_path_is_valid_directory in *. destruct (p_is_dir e (pkg_path_of e r)); [discriminate|]. pick.
+    + rewrite (assert_identifier_some _ _ H2). pick.
+    + rewrite (assert_identifier_some _ _ H2). pick.
+    + rewrite (assert_identifier_some _ _ H2). pick.
+    + unfold assert_path_exists in *. destruct (p_exists e bp) eqn:P; [discriminate|].
+      assert (p_is_file e bp = false) as -> by (destruct (p_is_file e bp) eqn:F; auto; apply is_file_exists in F; congruence).
+      pick.
+    + unfold assert_path_is_valid_file in *. destruct (p_is_file e bp); [discriminate|]. pick.
+    + destruct (p_is_file e bp) eqn:F; [|discriminate].
+      unfold assert_class_is_defined_in_file, class_defined, p_read, p_is_file in *.
+      destruct (path_kind e bp); try discriminate.
+      destruct (contains _ content); [discriminate|]. simpl. pick.
+    + rewrite (assert_identifier_some _ _ H2). pick.
+    + rewrite (assert_identifier_some _ _ H2). pick.
+    + rewrite (assert_identifier_some _ _ H2). pick.
+  - apply in_map_iff in H as (p & Hp & Hin). inversion Hp; subst; clear Hp.
+    unfold assert_path_is_valid_file in *. destruct (p_is_file e p) eqn:F; [discriminate|].
+    assert (forallb (p_is_file e) (r_files r) = false) as ->.
+    { destruct (forallb (p_is_file e) (r_files r)) eqn:FA; auto.
+      rewrite forallb_forall in FA. rewrite (FA _ Hin) in F. discriminate. }
+    pick.
+Qed.
+
+Theorem schema_rows_violated e r id x :
+  In (id, Some x) (schema_check_rows e r) -> In (id, false) (schema_constraints e r).
+Proof.
+  unfold schema_check_rows, schema_constraints. intro H. apply in_app_or in H as [H|H].
+  { apply in_or_app. left. eapply base_rows_violated; eauto. }
+  apply in_or_app. right. unfold schema_asserts in H. simpl in H.
+  repeat (destruct H as [H|H]; [inversion H; subst; clear H|]); try contradiction.
+  - rewrite H2. pick.
+  - rewrite (assert_identifier_some _ _ H2). pick.
+  - rewrite (assert_identifier_some _ _ H2). pick.
+  - unfold assert_not_reserved in *. destruct (is_reserved_var (gr_schema_var r)); [|discriminate]. simpl. pick.
+  - unfold assert_not_reserved in *. destruct (is_reserved_var (gr_type_map_var r)); [|discriminate]. simpl. pick.
+  - unfold assert_names_differ in *. destruct (String.eqb _ _); [|discriminate]. simpl. pick.
+Qed.
+
+Lemma in_map_snd {X Y} (l : list (X * Y)) y : In y (map snd l) -> exists x, In (x, y) l.
+Proof. intro H. apply in_map_iff in H as ([a b] & <- & Hin). eauto. Qed.
+
+(* the error that is raised names a row of the documented table that is false: no spurious reasons *)
+Theorem client_error_names_violated_constraint e r sc x :
+  client_post_init e r sc = Err x ->
+  exists id, In (id, Some x) (client_check_rows e r) /\ In (id, false) (client_constraints e r).
+Proof.
+  intro H. pose proof (client_post_init_first_err e r sc) as HF.
+  destruct (first_err (client_checks e r)) eqn:E.
+  - rewrite HF in H. inversion H; subst. apply first_err_in in E.
+    rewrite <- client_check_rows_checks in E. apply in_map_snd in E as [id Hin].
+    exists id. split; auto. eapply client_rows_violated; eauto.
+  - destruct HF as [c Hc]. congruence.
+Qed.
+
+Theorem schema_error_names_violated_constraint e r x :
+  schema_post_init e r = Err x ->
+  exists id, In (id, Some x) (schema_check_rows e r) /\ In (id, false) (schema_constraints e r).
+Proof.
+  intro H. pose proof (schema_post_init_first_err e r) as HF.
+  destruct (first_err (schema_checks e r)) eqn:E.
+  - rewrite HF in H. inversion H; subst. apply first_err_in in E.
+    rewrite <- schema_check_rows_checks in E. apply in_map_snd in E as [id Hin].
+    exists id. split; auto. eapply schema_rows_violated; eauto.
+  - destruct HF as [c Hc]. congruence.
+Qed.
+
+(* ---------- header substitution ---------- *)
+Lemma resolve_headers_keys e h h' : resolve_headers e h = Ok h' -> map fst h' = map fst h.
+Proof.
+  revert h'. induction h as [|[k v] h IH]; simpl; intros h' H.
+  - inversion H; reflexivity.
+  - destruct (get_header_value e v); try discriminate.
+    destruct (resolve_headers e h); try discriminate. inversion H; subst. simpl. f_equal. auto.
+Qed.
+
+Definition starts_dollar (v : string) : bool :=
+  match s2l v with c :: _ => is_dollar c | [] => false end.
+
+(* a value is passed through unless it starts with '$'; then it is the (non-empty) value of the
+   environment variable named by what follows the leading '$' characters *)
+Lemma header_value_spec e v v' : get_header_value e v = Ok v' ->
+  if starts_dollar v
+  then v' <> "" /\ getenv e (l2s (drop_while is_dollar (s2l v))) = Some v'
+  else v' = v.
+Proof.
+  unfold get_header_value, starts_dollar, invalid.
+  remember (l2s (drop_while is_dollar (s2l v))) as name.
+  destruct (s2l v) as [|c l].
+  - intro H. inversion H. reflexivity.
+  - destruct (is_dollar c).
+    + destruct (getenv e name) as [val|]; [|discriminate].
+      destruct (String.eqb val "") eqn:Z; [discriminate|]. intro H. inversion H; subst v'.
+      split; auto. intro Hs. subst val. discriminate.
+    + intro H. inversion H. reflexivity.
+Qed.
